@@ -70,6 +70,7 @@ fn main() {
             std::process::exit(props::c08::child_main(&args[2..]))
         }
         "pristine" => std::process::exit(props::c14::pristine_main()),
+        "c14-order" => std::process::exit(props::c14::order_main(&args[2..])),
         "replay" => {
             if args.len() < 3 {
                 usage();
